@@ -14,7 +14,8 @@ from fractions import Fraction
 from .. import terms as T
 from ..folds import find_ariths, step_increment, is_increment
 from ..ivl import IvlModel
-from ..meanci import ConfModel, KINDS, F0, F1, unwrap_ok
+from ..sqrtdom import check_paths as check_sqrt_domain
+from ..meanci import ConfModel, KINDS, F0, F1, unwrap_ok, V, V_RANGE, s2_from_variance
 from ..nf import NotReal
 from ..realmode import Domain, prune
 from ..statsmodel import StatsModel, by_ref
@@ -298,7 +299,9 @@ def run_cfg(chk, facts, cfg):
                     cnt['kinds'] += 1
 
         # ---- D4 statistics
-        dom = Domain(nf, {'n': (Fraction(2), None, False, True)})
+        dom = Domain(nf, {'n': (Fraction(2), None, False, True), 'v': V_RANGE})
+        inner_v = sm.arith_state(S1, s2_from_variance(S1, V, N), N)   # variance-parametrised (a sign guard on the variance is decidable)
+        state_v = sm.wrapper_state(adt, inner_v)
         mean_a = T.op('div', S1, T.op('i2f', N))
         want_mean = T.op('exp', mean_a) if tname == 'Geometric' else T.op('div', F1, mean_a)
         for sname in ('sample_mean', 'sample_sem'):
@@ -309,8 +312,10 @@ def run_cfg(chk, facts, cfg):
             key = '%s:%s::%s%s' % (PID, tname, sname, sfx)
             try:
                 sx = Summarizer(facts, assume_no_overflow=True)
-                paths = sx.summarize(fn['id'], args=[by_ref(state)], arg_names=['self'])
+                paths = sx.summarize(fn['id'], args=[by_ref(state_v)], arg_names=['self'])
                 chk.saw(facts, fn, paths=len(paths))
+                if sname == 'sample_sem':
+                    check_sqrt_domain(chk, key, where, paths, '%s::sample_sem' % tname, cnt)
                 feas = prune(paths, dom)
                 if len(feas) != 1 or not feas[0][0].is_ret() or feas[0][1]:
                     chk.ob(key, 'E4', sname, None, 'undecided: %d feasible paths' % len(feas), where)
@@ -320,7 +325,7 @@ def run_cfg(chk, facts, cfg):
                     want = want_mean
                 else:
                     sx2 = Summarizer(facts, assume_no_overflow=True)
-                    p2 = prune(sx2.summarize(a_sem['id'], args=[by_ref(inner)], arg_names=['self']), dom)
+                    p2 = prune(sx2.summarize(a_sem['id'], args=[by_ref(inner_v)], arg_names=['self']), dom)
                     if len(p2) != 1 or not p2[0][0].is_ret():
                         chk.ob(key, 'E4', sname, None, 'undecided: Arithmetic::sample_sem has %d feasible paths' % len(p2), where)
                         continue
@@ -331,7 +336,7 @@ def run_cfg(chk, facts, cfg):
                 # scaling degree in the data than any intermediate of the documented form (it then overflows /
                 # underflows for data whose documented result is an ordinary number, e.g. (H*H)^2 * var under a sqrt)
                 if good:
-                    degs = ({'S1': Fraction(-1), 'S2': Fraction(-2), 'n': Fraction(0)} if tname == 'Harmonic' else {'S1': None, 'S2': None, 'n': Fraction(0)})
+                    degs = ({'S1': Fraction(-1), 'S2': Fraction(-2), 'v': Fraction(-2), 'n': Fraction(0)} if tname == 'Harmonic' else {'S1': None, 'S2': None, 'v': None, 'n': Fraction(0)})
                     dg, dw = max_degree(got, degs), max_degree(want, degs)
                     okd = dg is not None and dw is not None and dg <= dw
                     chk.ob(key + ':range', 'E9 scaling degree', '%s::%s: no intermediate value scales with a higher power of the data than in the documented form (degree %s vs %s)' % (tname, sname, dg, dw),
